@@ -18,7 +18,10 @@ LEVEL = "exploration"
 RULE = (
     "full Cartesian lattice omega (log-spaced in [3e-3,50]) x depth (log-spaced in [1e-2,1e4] plus inf) "
     "x call shape {scalar, array+scalar depth, array+array depth, one mixed-regime array, transposed mixed array}; "
-    "plus spectrum objects x layouts x per-point depth patterns; plus every history of length <= 3 over {read wavenumber, "
+    "plus fine sweeps (one variable in relative steps of 5e-5 quick / 1e-5 thorough across w^2 d/g in [2e-3, 8], six sweeps x "
+    "{scalar calls, one array call, array/array call}) for monotonicity below the solver tolerance; "
+    "plus spectrum objects x layouts x per-point depth patterns (incl. depths rounding to one metre, sub-metre depths) x four "
+    "frequency grids (incl. 4.8e-4..8e-3 Hz); plus every history of length <= 3 over {read wavenumber, "
     "group_velocity, wavelength, wave_speed} and four in-place changes of the depth on one object. A lattice point is non-trivial when the "
     "solver's closed-form first guess does not already satisfy the 1e-3 tolerance (a Newton step is needed); "
     "distinct = distinct (omega, depth) pairs."
@@ -32,6 +35,11 @@ REQUIRED_CATEGORIES = ["kd<0.3", "0.3<=kd<=5", "kd>5", "newton_needed", "inf_dep
 
 G = 9.81
 SHAPES = ["scalar", "arr_scalar_depth", "arr_arr", "mixed", "mixed_T"]
+# fine sweeps: one variable moves in relative steps of 5e-5 (quick) / 1e-5 (thorough) across the whole
+# transition region w^2 d / g in [2e-3, 8] (the solver's first-guess switch, the borders between "n" and "n+1"
+# Newton steps and the kd = 5 derivative switch all lie inside), the other variable is fixed.
+FINE_SHAPES = ["fine_scalar", "fine_arr_scalar_depth", "fine_arr_arr"]
+FINE_SWEEPS = [("w_at_d", 0.5), ("w_at_d", 10.0), ("w_at_d", 200.0), ("d_at_w", 0.3), ("d_at_w", 1.0), ("d_at_w", 3.0)]
 
 
 def lattice(tier):
@@ -43,6 +51,9 @@ def lattice(tier):
 
 def units(tier):
     us = [{"name": f"fn:{s}", "kind": "fn", "shape": s} for s in SHAPES]
+    for shape in FINE_SHAPES:
+        for sw in FINE_SWEEPS:
+            us.append({"name": f"fine:{shape}:{sw[0]}{sw[1]:g}", "kind": "fine", "shape": shape, "sweep": list(sw)})
     for layout in ("scalar", "time", "time_lat", "flat"):
         us.append({"name": f"spectrum:{layout}", "kind": "spectrum", "layout": layout})
         us.append({"name": f"history:{layout}", "kind": "history", "layout": layout})
@@ -171,17 +182,89 @@ def run_fn(unit):
     return r
 
 
+def run_fine(unit):
+    """Monotonicity at a resolution far below the solver tolerance.  Inside ONE array call every element receives
+    the same number of Newton steps, so k is a smooth function of (w, d) there and must be strictly increasing in w
+    and non-increasing in d at any spacing; across separate scalar calls the number of steps differs (see the
+    known finding), which the key records as within_solver_tolerance."""
+    from ocean_science_utilities.wavetheory.lineardispersion import inverse_intrinsic_dispersion_relation as kfun
+
+    c = Collector()
+    shape = unit["shape"]
+    kind, fixed = unit["sweep"]
+    step = 5e-5 if unit["tier"] == "quick" else 1e-5
+    x = np.exp(np.arange(math.log(2e-3), math.log(8.0), (2.0 if kind == "w_at_d" else 1.0) * step))
+    if kind == "w_at_d":
+        w = np.sqrt(x * G / fixed)
+        d = np.full(len(w), fixed)
+    else:
+        d = x * G / fixed ** 2
+        d = d[d >= 1e-2]
+        w = np.full(len(d), fixed)
+    if shape == "fine_scalar":
+        K = np.array([np.ravel(kfun(float(a), float(b)))[0] for a, b in zip(w, d)])
+    elif shape == "fine_arr_scalar_depth":
+        if kind == "w_at_d":
+            K = np.asarray(kfun(w.copy(), float(fixed)), dtype=float)
+        else:
+            # a scalar depth cannot sweep the depth: pass the depth array in descending order instead
+            K = np.asarray(kfun(w.copy(), d.copy()[::-1].copy()), dtype=float)[::-1]
+    else:
+        K = np.asarray(kfun(w.copy(), d.copy()), dtype=float)
+    c.evaluations += K.size
+    key0 = {"shape": shape, "sweep": f"{kind}={fixed:g}"}
+    bad = ~(np.isfinite(K) & (K > 0))
+    if bad.any():
+        i = int(np.argmax(bad))
+        c.violation(dict(key0, check="k not positive/finite"), f"k={K[i]!r} at omega={w[i]!r}, depth={d[i]!r}")
+        return c.result()
+    res = np.abs(disp(K, d) - w) / w
+    if not (res <= 1e-3).all():
+        i = int(np.argmax(res))
+        c.violation(dict(key0, check="dispersion residual > 1e-3"), f"residual {res[i]:.4g} at omega={w[i]!r}, depth={d[i]!r}",
+                    omega=float(w[i]), depth=float(d[i]), k=float(K[i]))
+    rel = np.diff(K) / K[1:]
+    if kind == "w_at_d":
+        wrong = rel <= 0
+        what = "k not increasing in omega"
+    else:
+        wrong = rel > 1e-12
+        what = "k increasing with depth"
+    for within in (True, False):
+        m = wrong & ((np.abs(rel) <= 4e-3) == within)
+        if m.any():
+            i = int(np.argmax(np.where(m, np.abs(rel), 0)))
+            c.violation(dict(key0, check=what, within_solver_tolerance=within),
+                        f"{what} at relative spacing {step:g}: k({w[i]!r}, {d[i]!r}) = {K[i]!r} but k({w[i + 1]!r}, {d[i + 1]!r}) = "
+                        f"{K[i + 1]!r} (relative change {rel[i]:.3g}; {int(m.sum())} such neighbours in this sweep; shape={shape})",
+                        omega=[float(w[i]), float(w[i + 1])], depth=[float(d[i]), float(d[i + 1])], k=[float(K[i]), float(K[i + 1])],
+                        count=int(m.sum()))
+    xx = w * w * d / G
+    c.cat("fine_neighbours_checked", int(len(rel)))
+    c.cat("fine_transition_region", int(np.sum((xx > 0.05) & (xx < 5))))
+    c.nontrivial_count += int(np.sum((xx > 0.05) & (xx < 5))) if shape == "fine_scalar" else 0
+    c.case(dict(key0, n=len(K), step=step))
+    c.sample(dict(key0, omega=float(w[len(w) // 2]), depth=float(d[len(d) // 2]), k=float(K[len(K) // 2])))
+    return c.result()
+
+
 DEPTH_PATTERNS = [
     [np.nan, np.inf, 5.0, 50.0, 5000.0, 0.5],
     [5000.0, 0.5, np.nan, 5.0, np.inf, 50.0],
     [10.0] * 6,
     [np.inf] * 6,
     [np.nan] * 6,
+    # depths that differ but round to the same whole metre (a "one deployment" look-alike), and sub-metre depths
+    [20.4, 19.6, 20.0, 20.3, 19.7, 20.1],
+    [0.2, 0.3, 0.4, 0.1, 0.45, 0.25],
+    [1.6, 2.4, 2.0, np.nan, 1.7, 2.3],
 ]
 FGRIDS = [
     np.array([0.01, 0.02, 0.05, 0.1, 0.2, 0.5, 1.0, 2.0]),
     np.linspace(0.03, 0.6, 12),
     np.array([0.05, 0.3]),
+    # the low end of the property's domain (omega = 3e-3 rad/s ... ): even 5 km is shallow here, only inf/NaN is deep
+    np.array([4.8e-4, 1e-3, 2e-3, 3e-3, 5e-3, 8e-3]),
 ]
 
 
@@ -343,6 +426,8 @@ def run_history(unit):
 def run_unit(unit):
     if unit["kind"] == "fn":
         return run_fn(unit)
+    if unit["kind"] == "fine":
+        return run_fine(unit)
     if unit["kind"] == "history":
         return run_history(unit)
     return run_spectrum(unit)
